@@ -90,7 +90,7 @@ def load_script(world, sc, uid_offset=0):
         world.sends.setdefault((s["k"], s["from"]), []).append(s)
 
 
-def expected_calls(sc, collect=True, mode="run", sh=None, k0=0, with_hooks=True):
+def expected_calls(sc, collect=True, mode="run", sh=None, k0=0, with_hooks=True, whole_run=True):
     """the call log the property prescribes, generated from the run spec and the population script.
     sh / k0: continue from an earlier run of the same model (population and step counter persist)."""
     if sh is None:
@@ -108,13 +108,23 @@ def expected_calls(sc, collect=True, mode="run", sh=None, k0=0, with_hooks=True)
     spr = round(1 / sc["dt"])
     out = []
     k = k0
+    stopped = [False]
+
+    def apply_(sh_, op, _apply=shadow_apply):
+        if op["op"] == "stop_run":
+            stopped[0] = True       # the run is cancelled: this step is completed, a whole run ends after it
+        else:
+            _apply(sh_, op)
+
     for r in range(sc["start"], sc["stop"] + 1):
         for s in range(spr):
+            if stopped[0] and whole_run:
+                break
             k += 1
             time = r + s * sc["dt"]
             out.append(("begin", time, r, s))
             for op in hooks.get((k, "begin"), ()):
-                shadow_apply(sh, op)
+                apply_(sh, op)
             done = set()
             while True:
                 todo = [i for i in sh["live"] if i not in done]
@@ -125,10 +135,10 @@ def expected_calls(sc, collect=True, mode="run", sh=None, k0=0, with_hooks=True)
                 out.append(("handle", i, time))
                 out.append(("act", i, time))
                 for op in acts.get((k, i), ()):
-                    shadow_apply(sh, op)        # deletions only hit agents that have acted already; creations append
+                    apply_(sh, op)        # deletions only hit agents that have acted already; creations append
             out.append(("end", time, r, s))
             for op in hooks.get((k, "end"), ()):
-                shadow_apply(sh, op)
+                apply_(sh, op)
             last = (r == sc["stop"] and s == spr - 1)
             if collect or last:
                 out.append(("collect", time))
